@@ -174,6 +174,7 @@ def rule_digit_tables(ctx, rule="C14-digits"):
         total_vals += covered
         ctx.ob(rule, key, "table=display-width", not bad, how="every interval's count equals len(to_string()) at both endpoints (width is monotone in |x|): proved for all %d values" % covered,
                detail="digit_count disagrees with Display: " + "; ".join(bad[:3]))
+    ctx.notes.append("digit-count tables decided for %d values in total (every value of u8..u64, i8..i64 on this target), by interval partition" % total_vals)
     return total_vals
 
 
